@@ -226,7 +226,9 @@ m("neutral-exact-fraction-time", "chartparse/tick.py",
   "    from fractions import Fraction\n    return Seconds(float(Fraction(ticks * 60) / (Fraction(bpm) * resolution)))", [], ["C01", "C12", "C03", "C11", "C16"])
 m("neutral-sorted-events", "chartparse/track.py",
   "        events: list[BPMNeedingEventT] = []\n        for data in datas:",
-  "        events: list[BPMNeedingEventT] = []\n        for data in sorted(datas, key=lambda d: d.tick):", [], ["C11", "C09", "C05", "C14", "C13", "C18"])
+  "        events: list[BPMNeedingEventT] = []\n        for data in sorted(datas, key=lambda d: d.tick):", [], ["C11", "C05", "C14", "C13", "C18", "C16"])
+# (sorting is neutral for every property but C09, whose statement says "in file order": since round 9 - seeded/C09i - events
+#  sections with ticks going back and forth are generated, and a tree that sorts them by tick is rightly reported there)
 m("neutral-dispatch-under-a-lock", "chartparse/track.py",
   "    m = ParsedDataMap()\n    for line in lines:\n        for t in types:\n            try:\n                data = t.from_chart_line(line)\n            except RegexNotMatchError:\n                continue\n            m[t].append(data)\n            break\n        else:\n            logger.warning(_unparsable_line_msg_tmpl.format(line, [t.__qualname__ for t in types]))\n    return m\n",
   "    m = ParsedDataMap()\n    import threading\n    lock = globals().setdefault(\"_dispatch_lock\", threading.Lock())\n    for line in lines:\n        with lock:\n            for t in types:\n                try:\n                    data = t.from_chart_line(line)\n                except RegexNotMatchError:\n                    continue\n                m[t].append(data)\n                break\n            else:\n                logger.warning(_unparsable_line_msg_tmpl.format(line, [t.__qualname__ for t in types]))\n    return m\n",
